@@ -98,6 +98,7 @@ fn fault_opts() -> GraphOpts {
         sized: true,
         wide: true,
         mega: false,
+        symlinks: false,
     }
 }
 
